@@ -98,6 +98,7 @@ pub fn expected_probes(prop: &str) -> &'static [&'static str] {
             "C16.cookie_case.two_key_rotations_old",
             "C16.cookie_case.valid_prefix_only",
             "C16.cookie_case.valid_plus_extra_octets",
+            "C16.cookie_case.forged_under_all_zero_key",
         ],
         _ => &[],
     }
